@@ -1045,6 +1045,9 @@ def _rewrite(t):
         if src[0] == 'call' and src[1] == 'RangeInclusive::new' and len(src) == 4:
             return ('itervar', ('rangeincl', src[2], src[3])) + ident
         return ('itervar', src) + ident
+    # the value of `opt.ok_or(e)?` / `.ok_or_else(..)?` when it is there is the value of `opt` when it is there
+    if t[0] == 'unwrap' and isinstance(t[1], tuple) and len(t[1]) == 4 and t[1][0] == 'call' and t[1][1] in ('Option::ok_or', 'Option::ok_or_else'):
+        return simplify(('unwrap', t[1][2]))
     # spelling-independent forms of "the last / first element"
     if t[0] == 'unwrap' and isinstance(t[1], tuple) and len(t[1]) == 3 and t[1][0] == 'call' and t[1][1] in ('slice::last', 'slice::first'):
         return ('last', t[1][2]) if t[1][1] == 'slice::last' else ('index', t[1][2], ('const', 0))
